@@ -42,6 +42,7 @@ pub mod wm;
 pub mod split;
 pub mod rank;
 pub mod reg;
+pub mod norm;
 pub mod tmo;
 
 
@@ -60,6 +61,7 @@ pub fn registry() -> Vec<(&'static str, fn())> {
     v.extend_from_slice(split::ALL);
     v.extend_from_slice(rank::ALL);
     v.extend_from_slice(reg::ALL);
+    v.extend_from_slice(norm::ALL);
     v.extend_from_slice(tmo::ALL);
     v
 }
